@@ -87,8 +87,7 @@ IpOf(s) == IF s \in {"own1", "own2"} THEN "own" ELSE "str"
 \* sensible request tokens: a truncation point must exist in the encoding
 ReqOK(c, a, k) ==
   /\ (a \in {"badatyp", "dom0"}) => k \in {"full", "thdr", "badver"}
-AllRequests == {R(c, a, k) : c \in Cmds, a \in Addrs, k \in {kk \in ReqKinds : TRUE}} \cap
-               {r \in [t : {"R"}, cmd : Cmds, addr : Addrs, k : ReqKinds] : ReqOK(r.cmd, r.addr, r.k)}
+AllRequests == {r \in [t : {"R"}, cmd : Cmds, addr : Addrs, k : ReqKinds] : ReqOK(r.cmd, r.addr, r.k)}
 
 (* ---- bounded instances -------------------------------------------------- *)
 Configs ==
